@@ -81,12 +81,12 @@ func splitsPair(s []uint16, pos int) bool {
 }
 
 type selfChecker struct {
-	subj   []uint16
-	flags  string
-	pi     *patInfo // nil: pattern structure unknown (raw source)
+	subj    []uint16
+	flags   string
+	pi      *patInfo // nil: pattern structure unknown (raw source)
 	g, y, u bool
-	stats  func(string)
-	nMatch int
+	stats   func(string)
+	nMatch  int
 }
 
 func toLength(start int, n int) int {
@@ -137,10 +137,14 @@ func (sc *selfChecker) checkMatch(m *val, li0 int) (end int, why string) {
 		}
 	}
 	if li0 >= 0 {
-		if sc.y && idx != li0 {
+		// With the u flag a lastIndex inside a surrogate pair addresses the code point that contains it (22.2.7.2 step 12.b
+		// "the index into input of the character that was obtained from element lastIndex of S"); engines report the match at
+		// the start of that code point (V8 backs lastIndex up the same way), so li0-1 is acceptable there.
+		backed := sc.u && splitsPair(sc.subj, li0) && idx == li0-1
+		if sc.y && idx != li0 && !backed {
 			return 0, fmt.Sprintf("sticky match at index %d, lastIndex was %d", idx, li0)
 		}
-		if sc.g && idx < li0 {
+		if sc.g && idx < li0 && !backed {
 			return 0, fmt.Sprintf("global match at index %d before lastIndex %d", idx, li0)
 		}
 	}
@@ -173,9 +177,9 @@ func (sc *selfChecker) checkMatch(m *val, li0 int) (end int, why string) {
 // check runs all self-consistency rules over a battery.
 func (sc *selfChecker) check(b *batteryResult) (op string, why string) {
 	n := len(sc.subj)
-	loops := map[int]*val{}   // start -> steps of the exec loop
-	first := map[int]*val{}   // start -> first step
-	lastIdx := map[int]int{}  // start -> lastIndex after first step
+	loops := map[int]*val{}  // start -> steps of the exec loop
+	first := map[int]*val{}  // start -> first step
+	lastIdx := map[int]int{} // start -> lastIndex after first step
 	for i := range b.ops {
 		o := &b.ops[i]
 		d := o.data
@@ -207,7 +211,7 @@ func (sc *selfChecker) check(b *batteryResult) (op string, why string) {
 					first[start] = m
 					lastIdx[start] = li1
 				}
-				if li1 < 0 || (li1 > n && (sc.g || sc.y)) {
+				if (li1 < 0 || li1 > n) && (sc.g || sc.y) {
 					return o.name, fmt.Sprintf("lastIndex %d after exec outside [0,%d]", li1, n)
 				}
 				eff := -1
